@@ -433,9 +433,8 @@ Definition dir_cond (rec : ctl -> pres) (colon at_ : bool) (ps : list param) (c 
           if (n <? 0)%Z then
             match arg with
             | Some (VInt z) =>
-                if is_fixnum z then sel z c
-                else (* site: a bignum is refused by the Go code; by the definition it selects no clause *)
-                     if b then terr c else sel z (add_taint c true)
+                (* a fixnum is the clause number; a bignum selects no clause: n = len(strs) *)
+                if is_fixnum z then sel z c else sel (Z.of_nat (List.length strs)) c
             | _ => err c
             end
           else sel n c
